@@ -75,3 +75,4 @@ def run(ctx, R):
     a64fp.rule_fp_hsem(ctx, R)
     cfrcross.rule_a64(ctx, R)
     jitcross.rule_lwexec_a64(ctx, R)
+    rtpreserve.rule_a64_calldest(ctx, R)
